@@ -242,6 +242,12 @@ class NpCalls:
     def np_vstack(self, interp, st, args, kwargs, node):
         return self.np_concatenate(interp, st, args, kwargs, node, fn='vstack')
 
+    def np_swapaxes(self, interp, st, args, kwargs, node):
+        return self.swapaxes(as_array(args[0]), args[1], args[2]).w(deps=self.deps_of(args, kwargs)) if len(args) == 3 else as_array(args[0]).w(axes=None)
+
+    def np_moveaxis(self, interp, st, args, kwargs, node):
+        return self.moveaxis(as_array(args[0]), args[1], args[2]).w(deps=self.deps_of(args, kwargs)) if len(args) == 3 else as_array(args[0]).w(axes=None)
+
     def np_column_stack(self, interp, st, args, kwargs, node):
         # column_stack of 1-D arrays = vstack(...).T
         v = self.np_concatenate(interp, st, args, kwargs, node, fn='vstack')
